@@ -106,6 +106,38 @@ func (*Stream).compileExpressionInfo
   loop 1 invariant forallv(k, "", $visited[k] ==> (s.compiledExprInfo[k].isFunctionCall ==> s.compiledExprInfo[k].compiledExpr == nil))
   ensures every-expression-item-has-its-own-compiled-info: forallv(k, "", dom(s.config.FieldExpressions, k) ==> dom(s.compiledExprInfo, k) && exprInfoOK(s.compiledExprInfo[k], s.config.FieldExpressions[k].Expression))
 
+// a row reaches the pattern engine enriched by the JOIN and only when WHERE accepts the enriched row, under its own partition
+// key; whatever the engine reports goes through the SELECT projection to the sinks
+extern (*cepRunner).partitionKey
+  props C15 C05
+  option pure
+
+func (*DataProcessor).processCEP
+  props C15 C05 C01 C03 C07 C08 C09 C10 C12 C17 C20
+  modifies *
+  observe enriched := enrichData
+  observe keep := enrichData#1
+  observe jerr := enrichData#2
+  observe pass := Evaluate
+  observe key := partitionKey
+  observe raw := Process
+  observe projected := projectCep
+  count fed := Process
+  before enrichData the-row-given-is-enriched: $arg1 == data
+  before Evaluate where-is-asked-about-the-enriched-row: $arg1 == boxof($enriched, map[string]any) && $keep && $jerr == nil
+  before partitionKey the-key-is-derived-from-the-enriched-row: $arg1 == $enriched
+  before Process the-engine-gets-the-enriched-row-under-its-own-key: $arg1 == $enriched && $arg2 == $key && $keep && $jerr == nil && (old(dp.stream.filter) == nil || $pass)
+  before projectCep what-the-engine-reported-is-projected: seqeq($arg1, $raw)
+  before emitCepResults what-was-projected-is-emitted: seqeq($arg1, $projected)
+  atreturn a-row-reaches-the-engine-at-most-once: $fed <= 1
+
+// the consumer of window batches ends only when stopped or when the window's output is closed; every batch it takes is processed
+func (*DataProcessor).startWindowProcessing$1
+  props C01 C08 C09 C10 C03 C05 C07 C12 C15 C17 C20
+  modifies *
+  before processWindowBatch a-batch-taken-from-the-window-is-processed-as-it-is: $selected == 0 && $recvok && seqeq($arg1, batch)
+  atreturn the-consumer-ends-only-when-stopped-or-the-output-is-closed: $selected == 1 || ($selected == 0 && !$recvok)
+
 func NewDataProcessor
   props C05 C19 C01 C03 C07 C08 C09 C10 C12 C15 C17 C20
   ensures the-processor-serves-the-stream-it-was-built-for: fresh(result) && result.stream == stream
@@ -725,7 +757,7 @@ func (*DataProcessor).processWindowBatch
   before Add each-row-is-aggregated-under-its-own-window-bounds-published-just-before: $puts == 2 * ($adds + 1)
   observe res := GetResults
   observe resErr := GetResults#1
-  ensures [C01 C08 C03 C09] every-aggregated-batch-ends-with-one-reset-whatever-was-delivered: old(dp.stream.config.WindowConfig.Type) != "global" && $resErr == nil ==> $resets == 1
+  atreturn [C01 C08 C03 C09] every-aggregated-batch-ends-with-one-reset-whatever-was-delivered: old(dp.stream.config.WindowConfig.Type) != "global" && $resErr == nil ==> $resets == 1
   before Add rows-are-aggregated-in-batch-order-each-once: $arg1 == batch[$adds].Data && $adds < len(batch)
   before stampWindowID results-of-this-batch-get-this-batchs-interval: $arg0 == $res && $arg1 == batch && $adds == len(batch)
   before Reset accumulators-restart-only-after-the-results-were-taken: $adds == len(batch)
